@@ -399,6 +399,7 @@ def case_aligned(ctx, rng, idx):
             g = np.asarray(gz[k], dtype=float)
             ctx.ev("nonnegative", bool(np.all(g >= 0)) and not np.any(np.isnan(g)),
                    cls="aligned-jp", n=g.size, detail=lambda: {**tag, "user": k, "sinr": g})
+        ctx.sample("aligned", {**tag, "sinr_user0": np.asarray(gz[0], dtype=float)})
         ctx.sig("aligned", K, tuple(Nr), noise is None)
 
 
